@@ -259,9 +259,7 @@ func checkC18(w *World, r *Report) {
 	// are the stage's, i.e. the job's: wherever the stage runner composes Task.Variables, the
 	// stage's container is the argument of the merge (the argument wins, order.upstream-merge) —
 	// unless nothing in the module ever gives a task variables of its own.
-	if rs := w.FuncByRole("taskctl", "(*Scheduler).runStage", func(f *ssa.Function) bool {
-		return recvIs(f, "Scheduler") && f.Signature.Params().Len() == 1 && typeShort(f.Signature.Params().At(0).Type()) == "Stage"
-	}); rs == nil {
+	if rs := runStageFn(w); rs == nil {
 		r.Undecided("order.stage-variables", "taskctl: stage runner", "-", "the function that runs one stage is not found")
 	} else {
 		isTaskVars := func(addr ssa.Value) bool {
